@@ -187,13 +187,13 @@ func genStartOffset(r *simnet.Rng) int64 {
 }
 
 type streamGenOpts struct {
-	transport    string // "tcp" | "udp"
-	maxBytes     int    // per run
-	maxSessions  int
-	closeMode    string
-	faults       string // "none" | profile name
-	liveness     bool
-	rich         bool // low-entropy etc.
+	transport   string // "tcp" | "udp"
+	maxBytes    int    // per run
+	maxSessions int
+	closeMode   string
+	faults      string // "none" | profile name
+	liveness    bool
+	rich        bool // low-entropy etc.
 }
 
 func genStreamSpec(prop string, seed uint64, o streamGenOpts) *spec.RunSpec {
